@@ -171,10 +171,10 @@ func c11walkStrings(quick bool) []string {
 		for b := 1; b < 256; b++ {
 			add(string([]byte{byte(b)}))
 		}
-		for _, a := range classes {
-			for _, b := range classes {
-				add(a + b)
-			}
+		for _, s := range classes {
+			add("a" + s)
+			add(s + "b")
+			add(s + s)
 		}
 	}
 	for _, s := range []string{`\5C`, `\\`, `\22`, `a\5Cb`, `\0`, `x\`, `"q"`, "a b", "18446744073709551616", "42", "0", "-1", "1abc", "true", "void", "null", "c", "a\"b\\c", "\xc3", "\xe2\x82", "tab\there", "nl\nhere"} {
